@@ -345,3 +345,124 @@ class DepthDataNative(Contract):
 
 
 CONTRACTS = [ComputeDeviation, Locations] + RESETS + [PathNative, DepthDataNative]
+
+
+# ------------------------------------------------------------------------------------------
+# Drillhole.sort_depths: one permutation for depths, vertex data, vertices; cells re-indexed
+# ------------------------------------------------------------------------------------------
+
+
+class GetDataStub(Contract):
+    """summary of ObjectBase.get_data for sort_depths: the hole's DEPTH channel (if any)."""
+    target = "geoh5py/objects/object_base.py::ObjectBase.get_data"
+    symbolic = False
+    props = ()
+
+    def apply(self, I, args, kwargs):
+        from pyvc.values import PList
+
+        d = I.ctx.env.get("depth_data")
+        return PList([d] if (d is not None and args[1] == "DEPTH") else [])
+
+
+class DrillholeCellsSetStub(Contract):
+    """summary of Drillhole.cells.fset: stores and persists the array (its uint32 assertion is a
+    dtype check the engine does not carry; the re-indexed cells are cast with astype('uint32'))."""
+    target = "geoh5py/objects/drillhole.py::Drillhole.cells.fset"
+    symbolic = False
+    props = ()
+
+    def apply(self, I, args, kwargs):
+        me, cells = args
+        me.fields["_cells"] = cells
+        I.event("persist", entity=me, group="cells", arr=cells)
+        return None
+
+
+class SortDepths(Contract):
+    """Drillhole.sort_depths: when the depths are out of order, ONE permutation pi (depths[pi] sorted)
+    is applied to the depths, to every vertex data set and to the vertices, and every interval cell
+    is re-indexed with the inverse permutation, so it still joins the same two vertices; cell data
+    and non-numeric data are untouched.  Sorted depths change nothing."""
+    target = "geoh5py/objects/drillhole.py::Drillhole.sort_depths"
+    props = ("C18", "C07")
+    attr_overrides = {"children": lambda I, obj: obj.fields["_children"], "vertices": lambda I, obj: obj.fields["_vertices"], "cells": lambda I, obj: obj.fields["_cells"]}
+    trusted = ("children / vertices / cells getters return the stored values; NumericData.format_values is the identity on arrays that already have one entry per vertex (C07/C08); depths are finite reals (NaN labels of interval-only vertices are outside the model)",)
+
+    def cases(self):
+        return ["with-cells", "without-cells"]
+
+    def setup(self, ctx):
+        from contracts.alignment import CellsSetStub, VerticesSetStub
+        from geoh5py.data import DataAssociationEnum as A_, FloatData, TextData
+        from geoh5py.objects import Drillhole
+        from pyvc.values import AbsObj, PList
+
+        n = ctx.int("n", 1)
+        nc = ctx.int("nc", 0)
+        V = sym_arr("vertices", (n.e, 3), "real")
+        D = sym_arr("depths", (n.e,), "real")
+        X = sym_arr("vertex_values", (n.e,), "real")
+        Y = sym_arr("cell_values", (nc.e,), "real")
+        C = sym_arr("cells", (nc.e, 2), "int") if ctx.case == "with-cells" else None
+        ctx.assume(n.e < 2 ** 32)  # vertex indices fit the unsigned 32-bit cells of the format
+        if C is not None:
+            c, j = z3.Ints(f"{fresh_name('c')} {fresh_name('j')}")
+            ctx.assume(z3.ForAll([c, j], z3.Implies(z3.And(c >= 0, c < nc.e, j >= 0, j < 2), z3.And(C.elem(c, j) >= 0, C.elem(c, j) < n.e))))
+
+        def data(tag, cls, assoc, values):
+            return AbsObj(tag, {"association": AbsObj("assoc", {"name": assoc}), "values": values, "name": tag}, {"format_values": lambda I, a, kw: a[0]}, cls=cls)
+
+        depth = data("DEPTH", FloatData, "VERTEX", D)
+        vdat = data("vertex-data", FloatData, "VERTEX", X)
+        cdat = data("cell-data", FloatData, "CELL", Y)
+        tdat = data("text-data", TextData, "VERTEX", Opaque("text-values"))
+        me = Obj(Drillhole, {"_children": PList([depth, vdat, cdat, tdat]), "_vertices": V, "_cells": C})
+        ctx.env.update(depth_data=depth, me=me, V=V, D=D, X=X, Y=Y, C=C, n=n, nc=nc, kids={"depth": depth, "v": vdat, "c": cdat, "t": tdat})
+        return [me], {}
+
+    def post(self, ctx, result):
+        e = ctx.env
+        n, nc = e["n"].e, e["nc"].e
+        me = e["me"]
+        sorts = ctx.path.ghost.get("argsorts", [])
+        newD, newX = e["kids"]["depth"].attrs["values"], e["kids"]["v"].attrs["values"]
+        newV, newC = me.fields["_vertices"], me.fields["_cells"]
+        ctx.oblige("cell-data-untouched", e["kids"]["c"].attrs["values"] is e["Y"])
+        ctx.oblige("text-data-untouched", not isinstance(e["kids"]["t"].attrs["values"], Arr))
+        i, c, j = z3.Ints(f"{fresh_name('i')} {fresh_name('c')} {fresh_name('j')}")
+        rng = z3.And(i >= 0, i < n)
+        if not sorts:
+            ctx.oblige("sorted-depths-change-nothing", newD is e["D"] and newX is e["X"] and newV is e["V"] and newC is e["C"])
+            a, b = z3.Ints(f"{fresh_name('a')} {fresh_name('b')}")
+            ctx.oblige("nothing-is-done-only-when-the-depths-are-in-order", z3.Implies(z3.And(a >= 0, a + 1 < n), e["D"].elem(a) <= e["D"].elem(a + 1)))
+            return
+        pi, inv = sorts[0]["perm"], sorts[0]["inv"]
+        ok = all(isinstance(x, Arr) for x in (newD, newX, newV))
+        ctx.oblige("depths-vertex-data-and-vertices-are-replaced-by-arrays", ok and len(sorts) == 1)
+        if not ok:
+            return
+        ctx.oblige("the-new-depths-are-in-order", z3.Implies(z3.And(i >= 0, i + 1 < n), newD.elem(i) <= newD.elem(i + 1)))
+        ctx.oblige("depths-follow-the-sorting-permutation", z3.Implies(rng, newD.elem(i) == e["D"].elem(pi(i))))
+        ctx.oblige("vertex-data-follow-the-same-permutation", z3.Implies(rng, newX.elem(i) == e["X"].elem(pi(i))))
+        ctx.oblige("vertices-follow-the-same-permutation", z3.Implies(rng, z3.And(*[newV.elem(i, k) == e["V"].elem(pi(i), k) for k in range(3)])))
+        if e["C"] is not None:
+            okc = isinstance(newC, Arr) and newC.ndim == 2
+            ctx.oblige("cells-are-re-indexed", okc)
+            if okc:
+                inr = z3.And(c >= 0, c < nc, j >= 0, j < 2)
+                ctx.oblige("one-cell-per-old-cell", Z(newC.shape[0]) == nc)
+                ctx.oblige("every-cell-still-joins-the-same-two-vertices", z3.Implies(inr, z3.And(newC.elem(c, j) >= 0, newC.elem(c, j) < n, pi(newC.elem(c, j)) == e["C"].elem(c, j))),
+                           note="a cell end points at a vertex that is not the one it joined before the re-sort")
+
+
+def _wire_sort():
+    from contracts.alignment import CellsSetStub, VerticesSetStub
+
+    SortDepths.uses = (GetDataStub, VerticesSetStub, CellsSetStub, DrillholeCellsSetStub)
+
+
+_wire_sort()
+from contracts.alignment import CellsSetStub as _CSS, VerticesSetStub as _VSS  # noqa: E402
+
+CONTRACTS = CONTRACTS + [GetDataStub, _VSS, _CSS, DrillholeCellsSetStub, SortDepths]
